@@ -64,12 +64,21 @@ func genPathSingleSource(c *core.Ctx) {
 		prev   string
 	}
 	var sites []site
+	var mountInPlace ast.Expr
 	for _, fd := range c.P.AllFuncDecls(pkg) {
 		for _, call := range astx.CallsDeep(fd.Body) {
 			if !isGP(info, call) {
 				continue
 			}
 			for i, a := range call.Args {
+				if i > 0 {
+					// the mount prefix written in place: `return "/`, string(service.Desc.FullName()), `/"`
+					if prev, _ := astx.ConstString(info, call.Args[i-1]); strings.HasSuffix(prev, `return "/`) {
+						if chain := selectorChain(astx.StripConv(info, a)); strings.HasSuffix(chain, ".Desc.FullName()") {
+							mountInPlace = a
+						}
+					}
+				}
 				inner, ok := astx.Unparen(a).(*ast.CallExpr)
 				if !ok {
 					continue
@@ -106,7 +115,15 @@ func genPathSingleSource(c *core.Ctx) {
 		pathFn = f
 		total += n
 	}
-	c.Check(total >= 6, "path-sites", pkg.Syntax[0].Pos(), "%d quoted per-method path emission(s) (4 mux.Handle arms + handler procedure + client URL)", total)
+	// three roles, told apart by the text in front of the path: the mux pattern, the procedure
+	// handed to the handler constructor, the client URL
+	roles := map[string]bool{}
+	for _, st := range sites {
+		if perMethod[st.fn] > 0 {
+			roles[st.prev] = true
+		}
+	}
+	c.Check(total >= 3 && len(roles) >= 3, "path-sites", pkg.Syntax[0].Pos(), "%d quoted per-method path emission(s) in %d distinct contexts (mux pattern, handler procedure, client URL)", total, len(roles))
 	// each emitting function uses the loop's method variable
 	if pathFn != nil {
 		fd := c.P.Decl(pathFn)
@@ -138,7 +155,10 @@ func genPathSingleSource(c *core.Ctx) {
 		})
 		c.Check(!usesPackage, "no-package-join", fd.Pos(), "the path is not assembled from Package() (which may be empty) and a literal dot")
 	}
-	if mount == nil {
+	if mount == nil && mountInPlace != nil {
+		chain := selectorChain(astx.StripConv(info, mountInPlace))
+		c.Check(!strings.Contains(chain, "Parent") && !strings.Contains(chain, "Method"), "mount-prefix", mountInPlace.Pos(), "the mount prefix is the service descriptor's FullName() (%s)", chain)
+	} else if mount == nil {
 		c.Violation("mount-prefix", pkg.Syntax[0].Pos(), "no `return \"/`, f(service), `/\"` emission found")
 	} else {
 		fd := c.P.Decl(mount)
@@ -351,6 +371,26 @@ func genKindSwitch(c *core.Ctx) {
 				collect(ret, ret.Results)
 			}
 		}
+		// an identifier chosen into a local first (`id := pkg.Ident("NewXHandler")` under the kind test,
+		// emitted later) is an emission at the point of the choice
+		ast.Inspect(fd.Body, func(x ast.Node) bool {
+			if _, isLit := x.(*ast.FuncLit); isLit {
+				return false
+			}
+			as, ok := x.(*ast.AssignStmt)
+			if !ok || len(as.Lhs) != len(as.Rhs) {
+				return true
+			}
+			for i, r := range as.Rhs {
+				if _, isID := astx.Unparen(as.Lhs[i]).(*ast.Ident); !isID {
+					continue
+				}
+				if call, ok := astx.Unparen(r).(*ast.CallExpr); ok && isMethodNamed(info, call, "Ident") && len(call.Args) == 1 {
+					collect(as, []ast.Expr{r})
+				}
+			}
+			return true
+		})
 		kindWords := []string{"ClientStream", "ServerStream", "BidiStream", "Unary"}
 		relevant := false
 		for _, e := range emits {
